@@ -5,6 +5,7 @@ go 1.23
 toolchain go1.23.5
 
 require (
+	github.com/bytecodealliance/wasmtime-go v0.37.0
 	github.com/cbergoon/merkletree v0.2.0
 	github.com/ethereum/go-ethereum v1.10.8
 	github.com/meshplus/bitxhub v0.0.0
@@ -13,6 +14,7 @@ require (
 	github.com/meshplus/bitxhub-model v1.28.1-0.20230411032618-24ca54eec606
 	github.com/meshplus/eth-kit v1.28.0
 	github.com/sirupsen/logrus v1.8.1
+	golang.org/x/crypto v0.0.0-20220722155217-630584e8d5aa
 	pgregory.net/rapid v1.3.0
 )
 
@@ -24,7 +26,6 @@ require (
 	github.com/beorn7/perks v1.0.1 // indirect
 	github.com/binance-chain/tss-lib v1.3.3-0.20210411025750-fffb56b30511 // indirect
 	github.com/btcsuite/btcd v0.21.0-beta // indirect
-	github.com/bytecodealliance/wasmtime-go v0.37.0 // indirect
 	github.com/cespare/xxhash/v2 v2.1.1 // indirect
 	github.com/coreos/go-semver v0.3.0 // indirect
 	github.com/davecgh/go-spew v1.1.1 // indirect
@@ -168,7 +169,6 @@ require (
 	go.uber.org/atomic v1.7.0 // indirect
 	go.uber.org/multierr v1.6.0 // indirect
 	go.uber.org/zap v1.19.0 // indirect
-	golang.org/x/crypto v0.0.0-20220722155217-630584e8d5aa // indirect
 	golang.org/x/net v0.0.0-20220722155237-a158d28d115b // indirect
 	golang.org/x/sync v0.0.0-20220722155255-886fb9371eb4 // indirect
 	golang.org/x/sys v0.0.0-20220804214406-8e32c043e418 // indirect
